@@ -91,9 +91,10 @@ structure Seg (bk : String → Bool) (n n' : Nat) (rows : Rows) : Prop where
   ids : defIds rows = List.range' n (n' - n)
   bound : ∀ r ∈ rows, n ≤ r.id ∧ r.id < n'
   bodies : BodiesOK bk rows
+  keys : ∀ r ∈ rows, "unit_id" ∉ r.attrs.map Prod.fst
 
 theorem Seg.nil (bk : String → Bool) (n : Nat) : Seg bk n n [] :=
-  ⟨Nat.le_refl _, by simp [defIds], by simp, by intro r hr; simp at hr⟩
+  ⟨Nat.le_refl _, by simp [defIds], by simp, by intro r hr; simp at hr, by simp⟩
 
 theorem range'_split (n m k : Nat) (h1 : n ≤ m) (h2 : m ≤ k) :
     List.range' n (m - n) ++ List.range' m (k - m) = List.range' n (k - n) := by
@@ -103,18 +104,22 @@ theorem range'_split (n m k : Nat) (h1 : n ≤ m) (h2 : m ≤ k) :
   omega
 
 theorem Seg.append {bk n m k a b} (ha : Seg bk n m a) (hb : Seg bk m k b) : Seg bk n k (a ++ b) := by
-  refine ⟨Nat.le_trans ha.le hb.le, ?_, ?_, ha.bodies.append hb.bodies⟩
+  refine ⟨Nat.le_trans ha.le hb.le, ?_, ?_, ha.bodies.append hb.bodies, ?_⟩
   · rw [defIds_append, ha.ids, hb.ids, range'_split n m k ha.le hb.le]
   · intro r hr
     rcases List.mem_append.1 hr with h | h
     · have := ha.bound r h; have := hb.le; omega
     · have := hb.bound r h; have := ha.le; omega
+  · intro r hr
+    rcases List.mem_append.1 hr with h | h
+    · exact ha.keys r h
+    · exact hb.keys r h
 
 /-- a block: `start n owner`, a segment using `[n+1, n')`, `end n owner` -/
 theorem Seg.block {bk n n' owner inner} (h : Seg bk (n + 1) n' inner) :
     Seg bk n n' (mkStart n owner :: inner ++ [mkEnd n owner]) := by
   have hle := h.le
-  refine ⟨by omega, ?_, ?_, ?_⟩
+  refine ⟨by omega, ?_, ?_, ?_, ?_⟩
   · rw [List.cons_append, defIds_cons_of_not_end (mkStart_not_end n owner), defIds_append, h.ids,
       defIds_cons_of_end (mkEnd_isEnd n owner), defIds_nil, List.append_nil]
     have : n' - n = (n' - (n + 1)) + 1 := by omega
@@ -132,12 +137,19 @@ theorem Seg.block {bk n n' owner inner} (h : Seg bk (n + 1) n' inner) :
     · simp [Row.isMarker, mkStart_isStart] at hm
     · exact (h.bodies r hr hm).mono (fun s hs => by simp [hs])
     · simp [Row.isMarker, mkEnd_isEnd] at hm
+  · intro r hr
+    simp only [List.cons_append, List.mem_cons, List.mem_append, List.not_mem_nil, or_false] at hr
+    rcases hr with rfl | hr | rfl
+    · simp [mkStart]
+    · exact h.keys r hr
+    · simp [mkEnd]
 
 /-- a statement row followed by the rows of its blocks -/
 theorem Seg.stmt {bk n n' row sub} (hid : row.id = n) (hm : row.isMarker = false)
-    (hseg : Seg bk (n + 1) n' sub) (hrb : RowBodies bk sub n row.attrs) : Seg bk n n' (row :: sub) := by
+    (hseg : Seg bk (n + 1) n' sub) (hrb : RowBodies bk sub n row.attrs)
+    (hkey : "unit_id" ∉ row.attrs.map Prod.fst) : Seg bk n n' (row :: sub) := by
   have hle := hseg.le
-  refine ⟨by omega, ?_, ?_, ?_⟩
+  refine ⟨by omega, ?_, ?_, ?_, ?_⟩
   · rw [defIds_cons_of_not_end (isMarker_false_iff.1 hm).2, hseg.ids, hid]
     have : n' - n = (n' - (n + 1)) + 1 := by omega
     rw [this, List.range'_succ]
@@ -149,6 +161,10 @@ theorem Seg.stmt {bk n n' row sub} (hid : row.id = n) (hm : row.isMarker = false
     rcases List.mem_cons.1 hr with rfl | hr
     · rw [hid]; exact hrb.mono (fun s hs => List.mem_cons_of_mem _ hs)
     · exact (hseg.bodies r hr hmr).mono (fun s hs => List.mem_cons_of_mem _ hs)
+  · intro r hr
+    rcases List.mem_cons.1 hr with rfl | hr
+    · exact hkey
+    · exact hseg.keys r hr
 
 /-- closure of the grammar under prepending the blocks of the last statement -/
 def BlocksClosed (oid : Nat) (need : List (String × AVal)) (new : Rows) : Prop :=
@@ -171,14 +187,14 @@ theorem wfList_cons (bk : String → Bool) (c : JVal) (rest : List JVal) :
 
 theorem wfAttrs_list (bk : String → Bool) (op k : String) (xs rest) :
     wfAttrs bk op ((k, .list xs) :: rest) =
-      (!reservedKey k && !(k == "original_stmt") &&
+      (!reservedKey k && !(k == "original_stmt") && !(k == "unit_id") &&
         (if isGirFormat xs || (op == "method_decl" && k == "body") then wfList bk xs else true) &&
         wfAttrs bk op rest) := by
   rw [wfAttrs]
 
 theorem wfAttrs_int (bk : String → Bool) (op k : String) (m : Int) (rest) :
     wfAttrs bk op ((k, .int m) :: rest) =
-      (!reservedKey k && !(k == "original_stmt") && (!bk k) && wfAttrs bk op rest) := by
+      (!reservedKey k && !(k == "original_stmt") && !(k == "unit_id") && (!bk k) && wfAttrs bk op rest) := by
   rw [wfAttrs]
 
 theorem wfAttrs_obj (bk : String → Bool) (op k : String) (kvs rest) :
@@ -187,37 +203,37 @@ theorem wfAttrs_obj (bk : String → Bool) (op k : String) (kvs rest) :
 
 theorem wfAttrs_null (bk : String → Bool) (op k : String) (rest) :
     wfAttrs bk op ((k, .null) :: rest) =
-      (!reservedKey k && !(k == "original_stmt") && true && wfAttrs bk op rest) := by
+      (!reservedKey k && !(k == "original_stmt") && !(k == "unit_id") && true && wfAttrs bk op rest) := by
   rw [wfAttrs] <;> (intros; contradiction)
 
 theorem wfAttrs_str (bk : String → Bool) (op k s : String) (rest) :
     wfAttrs bk op ((k, .str s) :: rest) =
-      (!reservedKey k && !(k == "original_stmt") && true && wfAttrs bk op rest) := by
+      (!reservedKey k && !(k == "original_stmt") && !(k == "unit_id") && true && wfAttrs bk op rest) := by
   rw [wfAttrs] <;> (intros; contradiction)
 
 theorem wfAttrs_cons {bk op k v rest} (h : wfAttrs bk op ((k, v) :: rest) = true) :
-    reservedKey k = false ∧ k ≠ "original_stmt" ∧ wfAttrs bk op rest = true := by
+    reservedKey k = false ∧ (k ≠ "original_stmt" ∧ k ≠ "unit_id") ∧ wfAttrs bk op rest = true := by
   cases v with
   | obj kvs => rw [wfAttrs_obj] at h; cases h
   | list xs =>
     rw [wfAttrs_list] at h
     simp only [Bool.and_eq_true, Bool.not_eq_true', beq_eq_false_iff_ne, ne_eq] at h
-    exact ⟨h.1.1.1, h.1.1.2, h.2⟩
+    exact ⟨h.1.1.1.1, ⟨h.1.1.1.2, h.1.1.2⟩, h.2⟩
   | int m =>
     rw [wfAttrs_int] at h
     simp only [Bool.and_eq_true, Bool.not_eq_true', beq_eq_false_iff_ne, ne_eq] at h
-    exact ⟨h.1.1.1, h.1.1.2, h.2⟩
+    exact ⟨h.1.1.1.1, ⟨h.1.1.1.2, h.1.1.2⟩, h.2⟩
   | null =>
     rw [wfAttrs_null] at h
     simp only [Bool.and_eq_true, Bool.not_eq_true', beq_eq_false_iff_ne, ne_eq] at h
-    exact ⟨h.1.1.1, h.1.1.2, h.2⟩
+    exact ⟨h.1.1.1.1, ⟨h.1.1.1.2, h.1.1.2⟩, h.2⟩
   | str s =>
     rw [wfAttrs_str] at h
     simp only [Bool.and_eq_true, Bool.not_eq_true', beq_eq_false_iff_ne, ne_eq] at h
-    exact ⟨h.1.1.1, h.1.1.2, h.2⟩
+    exact ⟨h.1.1.1.1, ⟨h.1.1.1.2, h.1.1.2⟩, h.2⟩
 
 theorem wfAttrs_keys {bk op} : ∀ {kvs : List (String × JVal)}, wfAttrs bk op kvs = true →
-    ∀ k ∈ kvs.map Prod.fst, reservedKey k = false ∧ k ≠ "original_stmt" := by
+    ∀ k ∈ kvs.map Prod.fst, reservedKey k = false ∧ (k ≠ "original_stmt" ∧ k ≠ "unit_id") := by
   intro kvs
   induction kvs with
   | nil => intro _ k hk; simp at hk
@@ -239,7 +255,7 @@ def Mot1 (n parent : Nat) (t : JVal) : Prop :=
   wfStmt bk t = true →
   ∃ row sub n', flattenStmt P n parent t = .ok ({ emitted := some (row, sub), returned := true }, n') ∧
     row.id = n ∧ row.parent = parent ∧ row.isMarker = false ∧
-    (∀ k ∈ row.attrs.map Prod.fst, reservedKey k = false ∧ k ≠ "original_stmt") ∧
+    (∀ k ∈ row.attrs.map Prod.fst, reservedKey k = false ∧ (k ≠ "original_stmt" ∧ k ≠ "unit_id")) ∧
     Seg bk (n + 1) n' sub ∧ RowBodies bk sub n row.attrs ∧ BlocksClosed n row.attrs sub
 
 def Mot2 (n : Nat) (row : Row) (acc : Rows) (kvs : List (String × JVal)) : Prop :=
@@ -353,7 +369,7 @@ theorem flatten_induction (P : FlatParams) (bk : String → Bool) (hbk : bk "ori
     obtain ⟨rfl, rfl⟩ := hfs'
     simp only [Option.some.injEq, Prod.mk.injEq] at hem
     obtain ⟨rfl, rfl⟩ := hem
-    have hfresh : "original_stmt" ∉ row1.attrs.map Prod.fst := fun hm => (hk _ hm).2 rfl
+    have hfresh : "original_stmt" ∉ row1.attrs.map Prod.fst := fun hm => (hk _ hm).2.1 rfl
     simp only [patched] at hpe
     split at hpe
     · rw [setKeyE_fresh _ _ _ (by decide) hfresh] at hpe; cases hpe
@@ -372,31 +388,35 @@ theorem flatten_induction (P : FlatParams) (bk : String → Bool) (hbk : bk "ori
     simp only [Except.ok.injEq, Prod.mk.injEq] at hfl'
     obtain ⟨hr2, hn3⟩ := hfl'
     subst hr2; subst hn3
-    have hfresh : "original_stmt" ∉ row1.attrs.map Prod.fst := fun hm => (hk _ hm).2 rfl
+    have hfresh : "original_stmt" ∉ row1.attrs.map Prod.fst := fun hm => (hk _ hm).2.1 rfl
+    have hunit : "unit_id" ∉ row1.attrs.map Prod.fst := fun hm => (hk _ hm).2.2 rfl
     have hrow' : row'.id = n ∧ row'.parent = parent ∧ row'.isMarker = false ∧
-        (∀ kv ∈ row1.attrs, kv ∈ row'.attrs) ∧ RowBodies bk sub1 n row'.attrs := by
+        (∀ kv ∈ row1.attrs, kv ∈ row'.attrs) ∧ RowBodies bk sub1 n row'.attrs ∧
+        "unit_id" ∉ row'.attrs.map Prod.fst := by
       simp only [patched] at hpo
       split at hpo
       · rw [setKeyE_fresh _ _ _ (by decide) hfresh] at hpo
         simp only [Except.ok.injEq] at hpo
         subst hpo
-        refine ⟨hid, hpar, hmk, fun kv hkv => List.mem_append_left _ hkv, ?_⟩
-        intro kv hkv hb b hv
-        rcases List.mem_append.1 hkv with hkv | hkv
-        · exact hrb kv hkv hb b hv
-        · simp only [List.mem_singleton] at hkv
-          subst hkv
-          rw [hbk] at hb; cases hb
+        refine ⟨hid, hpar, hmk, fun kv hkv => List.mem_append_left _ hkv, ?_, ?_⟩
+        · intro kv hkv hb b hv
+          rcases List.mem_append.1 hkv with hkv | hkv
+          · exact hrb kv hkv hb b hv
+          · simp only [List.mem_singleton] at hkv
+            subst hkv
+            rw [hbk] at hb; cases hb
+        · simp only [List.map_append, List.map_cons, List.map_nil, List.mem_append, List.mem_singleton, not_or]
+          exact ⟨hunit, by decide⟩
       · simp only [Except.ok.injEq] at hpo
         subst hpo
-        exact ⟨hid, hpar, hmk, fun kv hkv => hkv, hrb⟩
-    obtain ⟨hid', hpar', hmk', hsub', hrb'⟩ := hrow'
+        exact ⟨hid, hpar, hmk, fun kv hkv => hkv, hrb, hunit⟩
+    obtain ⟨hid', hpar', hmk', hsub', hrb', hunit'⟩ := hrow'
     refine ⟨row' :: sub1 ++ rows, n2, ?_, ?_, ?_⟩
     · rw [flattenList, hfs]
       simp only [hnt]
       simp only [patched] at hpo
       simp only [Bool.false_eq_true, if_false, hpo, hfl]
-    · exact (Seg.stmt hid' hmk' hseg hrb').append hseg2
+    · exact (Seg.stmt hid' hmk' hseg hrb' hunit').append hseg2
     · intro M inM last
       rw [List.cons_append]
       exact Lvl.stmt hmk' hpar' trivial (hbc M inM parent row' rows hid' hsub' (hlvl2 M inM (some row')))
